@@ -55,7 +55,7 @@ def r1_layouts(cx):
         n += 1
     # BLOCK_SIZE = SIZE + 4 wherever it is used as a constant operand
     seen = {}
-    for f in F.fns:
+    for f in F.live_fns:
         for blk in f.get("blocks", []):
             ops = []
             for s in blk["s"]:
@@ -147,8 +147,9 @@ def _field_feeds(b, op, field):
 
 
 def switch_table(F, f, enum_suffix):
-    """{int value -> variant name} from the switch in f whose targets build variants of the enum"""
-    b = F.body(f)
+    """{int value -> variant name} from the switch in f whose targets build variants of the enum (a parse that
+    delegates to another parse of the crate is seen through)"""
+    b = F.deep_body(f, only=r"Parsable>::parse$|::try_from$|::parse$")
     best = {}
     for s in range(b.n):
         t = b.term(s)
